@@ -3,6 +3,7 @@ import itertools
 import os
 import tempfile
 from engine.ob import REPO_SRC  # noqa: E402
+from engine.ob import pick as _pick, flag as _flag  # noqa: F401
 from engine.ob import Obligation, post, reset_tally_caches
 
 LEVEL = 'other'
@@ -243,7 +244,7 @@ def sequences(c1):
         st = {'rules': bool(rules), 'csv': bool(csv), 'views': bool(views), 'views_line': bool(views_line), 'rules_line': bool(rules)}
         root = build(st)
         cmds = (COMMANDS + ['init'])
-        first, second = cmds[int(c1)], COMMANDS[int(c2)]
+        first, second = cmds[int(c1)], COMMANDS[_pick(c2, 7)]
         s0 = fsx.snapshot(root)
         run(first, root)
         s1 = fsx.snapshot(root)
